@@ -3417,6 +3417,11 @@ impl CommandParser {
         let key = Self::extract_bytes(&frames[1])?;
         let offset = Self::extract_string(&frames[2])?.parse::<usize>()
             .map_err(|_| FerrousError::Command(CommandError::InvalidIntegerValue))?;
+        // A string holds at most 512 MB, i.e. 2^32 bits: a larger offset would make the server
+        // allocate whatever the client asks for
+        if offset >= (1usize << 32) {
+            return Err(FerrousError::Command(CommandError::InvalidArgument("bit offset is not an integer or out of range".to_string())));
+        }
         let value = match Self::extract_string(&frames[3])?.as_str() {
             "0" => 0,
             "1" => 1,
